@@ -254,7 +254,11 @@ func runC08(c *Ctx) {
 		}, MConst(""))
 		// the store Paused = true under !Paused, for partition style and default style
 		n := 0
-		for _, b := range fn.Blocks {
+		var r84Blocks []*ssa.BasicBlock
+		for _, hf := range samePkgClosure(p, fn) {
+			r84Blocks = append(r84Blocks, hf.Blocks...)
+		}
+		for _, b := range r84Blocks {
 			for _, in := range b.Instrs {
 				if !isFieldStoreConst("Paused", "true")(in) {
 					continue
@@ -276,7 +280,7 @@ func runC08(c *Ctx) {
 				if !EdgeFactMatches(b, k, FFalse(MField("Spec", "Paused"))) || !HasFact(FactsFor(fn).At(b), inProgress) {
 					continue
 				}
-				if r, _ := CanReach(Point{Block: b.Succs[k]}, IsReturn, ReachOpts{CutInstr: isFieldStoreConst("Paused", "true")}); r {
+				if r, _ := CanReach(Point{Block: b.Succs[k]}, IsReturn, ReachOpts{CutInstr: MustDo(isFieldStoreConst("Paused", "true"))}); r {
 					bad = "from the edge Spec.Paused == false a return is reachable without pausing again"
 				}
 			}
